@@ -58,22 +58,31 @@ def worker_main() -> int:
     recheck = job.get('recheck_every', 0)
     n = 0
     try:
-        for idx in job['indexes']:
+        work = [(i, None) for i in job.get('indexes', [])] + [(i, c) for i, c in job.get('cases', [])]
+        for idx, case in work:
             faulthandler.dump_traceback_later(per_run_timeout, exit=True)
             t0 = time.time()
             try:
-                replay = job.get('replay')
-                ch = Choices(replay=replay) if replay is not None else run_choices(base_seed, idx)
-                rec = chk.run(ch, workdir, tier)
-                rec['idx'] = idx
-                if rec['violations'] or job.get('want_draws'):
-                    rec['draws'] = ch.recorded()
-                if recheck and n % recheck == 0:
-                    ch2 = Choices(replay=ch.recorded())
-                    rec2 = chk.run(ch2, workdir, tier)
-                    rec['recheck'] = (rec2['event_digest'] == rec['event_digest'])
-                    if not rec['recheck']:
-                        rec['recheck_digests'] = [rec['event_digest'], rec2['event_digest']]
+                if case is not None:
+                    rec = chk.run_case(case, workdir, tier)
+                    rec['idx'] = idx
+                    rec['case'] = case
+                    if recheck and n % recheck == 0:
+                        rec2 = chk.run_case(case, workdir, tier)
+                        rec['recheck'] = (rec2['event_digest'] == rec['event_digest'])
+                else:
+                    replay = job.get('replay')
+                    ch = Choices(replay=replay) if replay is not None else run_choices(base_seed, idx)
+                    rec = chk.run(ch, workdir, tier)
+                    rec['idx'] = idx
+                    if rec['violations'] or job.get('want_draws'):
+                        rec['draws'] = ch.recorded()
+                    if recheck and n % recheck == 0:
+                        ch2 = Choices(replay=ch.recorded())
+                        rec2 = chk.run(ch2, workdir, tier)
+                        rec['recheck'] = (rec2['event_digest'] == rec['event_digest'])
+                        if not rec['recheck']:
+                            rec['recheck_digests'] = [rec['event_digest'], rec2['event_digest']]
                 if not job.get('keep_sample') and not rec['violations'] and n >= 3:
                     rec.pop('sample', None)
             except BaseException as ex:   # harness failure, not a verdict
@@ -95,22 +104,40 @@ def spawn_worker(job: dict, hashseed: int) -> subprocess.Popen:
     env['PYTHONHASHSEED'] = str(hashseed)
     env['VERIF_REPO'] = REPO_DIR
     env['PYTHONDONTWRITEBYTECODE'] = '1'
-    p = subprocess.Popen([PY, CHECK, '_worker'], stdin=subprocess.PIPE, stdout=subprocess.PIPE,
-                         stderr=subprocess.PIPE, env=env, text=True)
+    # output goes to unlinked temp files: a full pipe must never stall a worker
+    fout = tempfile.TemporaryFile(mode='w+', dir=scratch_root())
+    ferr = tempfile.TemporaryFile(mode='w+', dir=scratch_root())
+    p = subprocess.Popen([PY, CHECK, '_worker'], stdin=subprocess.PIPE, stdout=fout, stderr=ferr, env=env, text=True)
     p.stdin.write(json.dumps(job))
     p.stdin.close()
     p.stdin = None
+    p._simlab_files = (fout, ferr)
     return p
+
+
+def _read_back(p):
+    fout, ferr = p._simlab_files
+    fout.seek(0)
+    out = fout.read()
+    ferr.seek(0, os.SEEK_END)
+    size = ferr.tell()
+    ferr.seek(max(0, size - 4000))
+    err = ferr.read()
+    fout.close()
+    ferr.close()
+    return out, err
 
 
 def collect(p: subprocess.Popen, timeout: float):
     """Returns (records, error_text)."""
     try:
-        out, err = p.communicate(timeout=timeout)
+        p.wait(timeout=timeout)
     except subprocess.TimeoutExpired:
         p.kill()
-        out, err = p.communicate()
+        p.wait()
+        out, err = _read_back(p)
         return _parse(out), f'worker wall-clock watchdog ({timeout}s)\n{err[-2000:]}'
+    out, err = _read_back(p)
     recs = _parse(out)
     if p.returncode != 0 or not (recs and recs[-1].get('done')):
         return recs, f'worker exit {p.returncode}\n{err[-3000:]}'
@@ -245,6 +272,22 @@ def shrink_main() -> int:
     return 0
 
 
+def enumerate_main() -> int:
+    job = json.loads(sys.stdin.read())
+    from .registry import get_check
+    chk = get_check(job['prop'])
+    workdir = tempfile.mkdtemp(prefix='simlab-enum-', dir=scratch_root())
+    real_stdout = os.fdopen(os.dup(1), 'w')
+    sys.stdout = open(os.devnull, 'w')
+    try:
+        cases, info = chk.enumerate_cases(job['tier'], job['base_seed'], workdir)
+    finally:
+        shutil.rmtree(workdir, ignore_errors=True)
+    real_stdout.write(json.dumps({'cases': cases, 'info': info}, default=repr) + '\n')
+    real_stdout.flush()
+    return 0
+
+
 def run_sub(cmd: str, job: dict, hashseed: int, timeout: float):
     env = dict(os.environ)
     env['PYTHONHASHSEED'] = str(hashseed)
@@ -281,8 +324,21 @@ def run_batch(prop: str, tier: str, base_seed: int, jobs: int) -> int:
     t_start = time.time()
     if hasattr(chk, 'run_batch'):
         return chk.run_batch(tier, base_seed, jobs)
+    cases = None
+    enum_info = None
+    if hasattr(chk, 'enumerate_cases'):
+        res, err = run_sub('_enumerate', {'prop': prop, 'tier': tier, 'base_seed': base_seed}, 0, 900)
+        if res is None:
+            print(f'HARNESS-ERROR property={prop} enumeration failed: {err}')
+            return 2
+        cases = res['cases']
+        enum_info = res['info']
+        if 'VERIF_RUNS' in os.environ:
+            cases = cases[:int(os.environ['VERIF_RUNS'])]
     total = chk.quick_runs if tier == 'quick' else chk.thorough_runs
     total = int(os.environ.get('VERIF_RUNS', total))
+    if cases is not None:
+        total = len(cases)
     chunk_per_worker = 250
     wall_cap = float(os.environ.get('VERIF_WALL_CAP', 1500 if tier == 'quick' else 7200))
     records: list[dict] = []
@@ -298,8 +354,11 @@ def run_batch(prop: str, tier: str, base_seed: int, jobs: int) -> int:
             mine = [i for i in idxs if i % jobs == w]
             if not mine:
                 continue
-            job = {'prop': prop, 'tier': tier, 'base_seed': base_seed, 'indexes': mine,
-                   'recheck_every': 10, 'per_run_timeout': 180}
+            job = {'prop': prop, 'tier': tier, 'base_seed': base_seed, 'recheck_every': 10, 'per_run_timeout': 180}
+            if cases is not None:
+                job['cases'] = [(i, cases[i]) for i in mine]
+            else:
+                job['indexes'] = mine
             procs.append((spawn_worker(job, w % HASH_CLASSES), mine))
         remaining = max(60.0, wall_cap - (time.time() - t_start))
         for p, mine in procs:
@@ -324,7 +383,11 @@ def run_batch(prop: str, tier: str, base_seed: int, jobs: int) -> int:
     xprocs = []
     for hs in sorted({i % jobs % HASH_CLASSES for i in sample_idx}):
         mine = [i for i in sample_idx if i % jobs % HASH_CLASSES == hs]
-        job = {'prop': prop, 'tier': tier, 'base_seed': base_seed, 'indexes': mine, 'per_run_timeout': 180}
+        job = {'prop': prop, 'tier': tier, 'base_seed': base_seed, 'per_run_timeout': 180}
+        if cases is not None:
+            job['cases'] = [(i, cases[i]) for i in mine]
+        else:
+            job['indexes'] = mine
         xprocs.append((spawn_worker(job, hs), mine))
     for p, mine in xprocs:
         recs, err = collect(p, 600)
@@ -347,6 +410,10 @@ def run_batch(prop: str, tier: str, base_seed: int, jobs: int) -> int:
             records.append({'idx': -1, 'violations': xvs, 'spec_digest': 'real-probe', 'sched_digest': 'real-probe',
                             'event_digest': None, 'order': [], 'nontrivial': False, 'faults': {}, 'probes': {},
                             'backend': 'real-os', 'outcome': 'probe', 'batch_extra': True})
+    if enum_info is not None:
+        extra_cov = dict(extra_cov or {})
+        extra_cov['enumeration'] = enum_info
+        extra_cov['exhaustive'] = bool(enum_info.get('exhaustive')) and len(records) == len(cases) and 'VERIF_RUNS' not in os.environ
     return finish(chk, prop, tier, base_seed, jobs, records, harness_errors, det_checked, det_failed, t_start, extra_cov)
 
 
@@ -488,6 +555,18 @@ def make_replay(chk, prop, tier, base_seed, idx, hashseed, v, r):
     draws = r.get('draws')
     info = {'minimised': False}
     rec = r
+    if r.get('case') is not None:
+        data = {'property': prop, 'tier': tier, 'seed': base_seed, 'run_index': idx, 'pythonhashseed': hashseed,
+                'kind': 'case', 'case': r['case'], 'draws': None,
+                'violation': {'code': v['code'], 'sig': v['sig'], 'detail': v['detail']},
+                'event_digest': r.get('event_digest'), 'spec': (r.get('sample') or {}).get('spec'),
+                'trace': {'faults': r.get('faults'), 'outcome': r.get('outcome')}, 'repo': repo_rev(),
+                'note': 'single-fault enumeration case: already minimal (one task, one fault)'}
+        with open(path, 'w') as f:
+            json.dump(data, f, indent=1, default=repr)
+        res, err = run_sub('_replay', {'path': path}, hashseed, 240)
+        return path, {'minimised': False, 'reason': 'enumeration case is already minimal',
+                      'fresh_process_replay': (res or {}).get('status', err)}
     if r.get('batch_extra'):
         data = {'property': prop, 'tier': tier, 'seed': base_seed, 'run_index': -1, 'pythonhashseed': 0,
                 'kind': 'batch_extra', 'draws': None,
@@ -545,6 +624,8 @@ def replay_main() -> int:
         if data.get('kind') == 'batch_extra':
             xvs, _cov = chk.batch_extra(data['tier'])
             rec = {'violations': xvs, 'event_digest': None}
+        elif data.get('kind') == 'case':
+            rec = chk.run_case(data['case'], workdir, data['tier'])
         elif hasattr(chk, 'replay'):
             rec = chk.replay(data, workdir)
         else:
@@ -584,6 +665,8 @@ def main(argv) -> int:
         return worker_main()
     if len(argv) >= 2 and argv[1] == '_shrink':
         return shrink_main()
+    if len(argv) >= 2 and argv[1] == '_enumerate':
+        return enumerate_main()
     if len(argv) >= 2 and argv[1] == '_replay':
         return replay_main()
     if len(argv) >= 3 and argv[1] == 'replay':
